@@ -97,13 +97,15 @@ CHECKS['C16'] = dict(
     design='7 (C16)')
 
 CHECKS['C02'] = dict(
-    technique='Lean 4 model of the emitted shunting-yard loop inside the code model + operational specification (PEG sub-parsers + operator-precedence stacks) + refinement theorem (flag-driven restores suffice, incl. the table flags re-extracted from source) + differential correspondence over random tables x token strings',
-    text=('Proof: the operator table is a constructor of the core expression language; C01_codegen_refines_peg covers it (genOT_refines: the emitted loop with its flag-dependent checkpoints computes pegOT for every locally sound flag table, '
-          're-proved for the OperatorTable/Apply flags extracted from /repo), as do the position/boundedness theorems. Tie: random tables (1-5 rows, all six row kinds, operator spellings shared between prefix/infix/postfix rows and prefixes of one '
-          'another, literal / regex / rule / class / consuming-rule operands, several enclosing contexts) x token strings, complete and truncated: tree and end index compared with the Lean model and specification. '
-          'PARTIAL: the specification is operational; the declarative clauses (yield of the tree = consumed occurrences, well-shapedness, uniqueness) are not yet theorems.'),
+    technique='Lean 4 model of the emitted shunting-yard loop inside the code model + refinement theorem to the operational specification (PEG sub-parsers + operator-precedence stacks) + declarative theorem by stack invariant: the result is a well-shaped tree whose in-order reading is a trace of consecutively accepted operands and operators ending at the returned position + differential correspondence over random tables x token strings',
+    text=('Proof: C02_tree_well_shaped_and_yield (for every tagged table, fuel, input and position: the value returned is OTree.toVal of a tree that is WellShaped - every operator open at the right edge of a left operand gives way (tighter row, or same row and left-associative), '
+          'every operator open at the left edge of a right operand is held (not tighter-or-left, no non-associative conflict), prefix/postfix likewise - and whose yield is a Trace of the sub-parsers from the start to the returned end position: exactly the occurrences consumed, ending with a complete operand), '
+          'C02_generated_code_builds_that_tree (the code model gen returns that value and position: genOT_refines inside C01_codegen_refines_peg, with the OperatorTable/Apply flags re-extracted from /repo), C02_reductions_preserve_order. '
+          'Tie: random tables (1-5 rows, all six row kinds, operator spellings shared between prefix/infix/postfix rows and prefixes of one another, literal / regex / rule / class / consuming-rule operands, several enclosing contexts) x token strings, complete and truncated: '
+          'tree and end index compared with the Lean model and specification; the tagging hypothesis of the theorem is evaluated by the driver (allTablesTagged) on every table the real generator builds. '
+          'PARTIAL: uniqueness of the well-shaped tree and maximality of the run are decided by the exhaustive correspondence only, not by theorems.'),
     note='Trusted as for C01.',
-    design='7 (C02)')
+    design='0.2, 0.9, 7 (C02)')
 
 CHECKS['C11'] = dict(
     technique='Lean 4 theorem on the context table of a parentless named module (identity) + C01 refinement for the unnamed reading + cross-variant differential run (named / include_source / repeated compilation / emitted source in an isolated interpreter) against each other, against template expansions and against the Lean model',
